@@ -236,10 +236,27 @@ def apply(ctx, W):
     defl = [s for s in st if s["kind"] == "stmt_expr" and fw.text(s["span"]).startswith("if defaultable")]
     if len(defl) != 1:
         raise rules.WeaveError("build: `if defaultable` statement not found")
+    # S5: the defaultable check - verified (it used to be a trusted segment): the regions come back unchanged, and an
+    # accepted defaultable type has no pointer / function field and only defaultable named field types
+    rules.hoist_fn(ctx, fw, "build/get_defaultable_type_path", b["span"][0])
+    fn_into_verus(ctx, fw, "build/get_defaultable_type_path", hoisted=True, ret="r", unit="semantic::type_definition::get_defaultable_type_path",
+                  tags=("C12", "C17"), ensures=[("r == (match defaultable_path_of(*type_ref) { Some(p) => Some(&p), None => None::<&ItemPath> })", ("C17",), "defaultable-path")],
+                  decreases="type_ref")
+    fw_t = W.file("semantic/types.rs")
+    fn_into_verus(ctx, fw_t, "ItemDefinitionInner::defaultable", ret="r", tags=("C17",), ensures=[
+        "r == (match *self { ItemDefinitionInner::Type(td) => td.defaultable, ItemDefinitionInner::Enum(ed) => ed.defaultable && ed.default_index is Some })"])
+    l_def = [l for l in fw.loops(b) if l["kind"] == "for" and defl[0]["span"][0] <= l["span"][0] < defl[0]["span"][1]]
+    if len(l_def) != 1:
+        raise rules.WeaveError("build: the defaultable check has no single loop")
     u5 = rules.outline(ctx, fw, b, defl[0], defl[0], "build__defaultable",
         "defaultable: bool, regions: Vec<Region>, semantic: &SemanticState, resolvee_path: &ItemPath",
-        "defaultable, regions, &*semantic, resolvee_path", outs=["regions"], types=["Vec<Region>"], kind="try", mode="T", tags=("C13",),
-        ensures=[("res is Ok ==> res->Ok_0.0 == regions", ("C01", "C02"))])
+        "defaultable, regions, &*semantic, resolvee_path", outs=["regions"], types=["Vec<Region>"], kind="try", tags=("C12", "C17"),
+        ensures=[("res is Ok ==> res->Ok_0.0 == regions", ("C01", "C02"), "defaultable-check-keeps-regions"),
+                 ("res is Ok && defaultable ==> forall|k: int| 0 <= k < regions@.len() ==> field_defaultable(&semantic.type_registry, (#[trigger] regions@[k]).type_ref)", ("C17",), "defaultable-fields")])
+    rules.for_to_index_loop(ctx, fw, u5, l_def[0], seq="regions", ivar="i_q")
+    rules.index_loop_spec(ctx, fw, u5, l_def[0], tags=("C17",), invariants=[
+        ("forall|k: int| 0 <= k < i_q ==> field_defaultable(&semantic.type_registry, (#[trigger] regions@[k]).type_ref)", ("C17",)),
+    ])
 
     # ------------------------------------------------------------------ S7 alignment
     # the alignment segment: everything between the defaultable check and `let alignment` (inclusive)
